@@ -50,7 +50,7 @@ Flip(l)      == <<l[3], l[4], l[1], l[2]>>
 PortsIn(cn)  == {<<s, p>> : s \in cn, p \in 1..net.np}
 IsLive(l, ph, cn) == l \in ph /\ l[1] \in cn /\ l[3] \in cn
 LiveSet(ph, cn)   == {l \in ph : l[1] \in cn /\ l[3] \in cn}
-Min(a, b) == IF a < b THEN a ELSE b
+Lesser(a, b) == IF a < b THEN a ELSE b
 
 ----------------------------------------------------------------------------
 (* Graph helpers over a set E of directed links used as undirected edges.  *)
@@ -172,7 +172,7 @@ Log(a, args, exp) ==
 
 NewAge(ph, cn, dt) ==
   [l \in net.wires |-> IF IsLive(l, ph, cn) # IsLive(l, phys, conn) THEN 0
-                       ELSE Min(age[l] + dt, Cap)]
+                       ELSE Lesser(age[l] + dt, Cap)]
 
 \* wires go up and down silently: no controller code runs, nothing may change
 Cut(l) ==
@@ -210,11 +210,11 @@ DownEnv(s) == s \in conn /\ MembershipMayChange
 AdvEnv(d)  == d >= 1
 UpDo(s, R)   == Apply("SwitchUp", [s |-> s], phys, conn \cup {s}, 0, 0, R)
 DownDo(s, R) == Apply("SwitchDown", [s |-> s], phys, conn \ {s}, 0, 0, R)
-AdvDo(d, R)  == Apply("Advance", [d |-> d], phys, conn, d, Min(quiet + d, Cap), R)
+AdvDo(d, R)  == Apply("Advance", [d |-> d], phys, conn, d, Lesser(quiet + d, Cap), R)
 
 SwitchUp(s, R)   == UpEnv(s) /\ Permitted(R, phys, conn \cup {s}, 0, 0) /\ UpDo(s, R)
 SwitchDown(s, R) == DownEnv(s) /\ Permitted(R, phys, conn \ {s}, 0, 0) /\ DownDo(s, R)
-Advance(d, R)    == AdvEnv(d) /\ Permitted(R, phys, conn, d, Min(quiet + d, Cap)) /\ AdvDo(d, R)
+Advance(d, R)    == AdvEnv(d) /\ Permitted(R, phys, conn, d, Lesser(quiet + d, Cap)) /\ AdvDo(d, R)
 
 \* a frame from a host is flooded through the converged network
 Flood(s, p) ==
@@ -228,10 +228,10 @@ Flood(s, p) ==
 (* Model checking: the controller's response ranges over EVERYTHING the    *)
 (* property permits.                                                        *)
 
-RECURSIVE SeqOf(_)
-SeqOf(S) == IF S = {} THEN <<>> ELSE LET x == CHOOSE y \in S : TRUE IN <<x>> \o SeqOf(S \ {x})
-CanonEvs(A) == SeqOf({<<0, l[1], l[2], l[3], l[4]>> : l \in adj \ A})
-               \o SeqOf({<<1, l[1], l[2], l[3], l[4]>> : l \in A \ adj})
+RECURSIVE AsSeq(_)
+AsSeq(S) == IF S = {} THEN <<>> ELSE LET x == CHOOSE y \in S : TRUE IN <<x>> \o AsSeq(S \ {x})
+CanonEvs(A) == AsSeq({<<0, l[1], l[2], l[3], l[4]>> : l \in adj \ A})
+               \o AsSeq({<<1, l[1], l[2], l[3], l[4]>> : l \in A \ adj})
 
 AdjChoices(ph, cn, dt, q) ==
   LET ag == NewAge(ph, cn, dt)
@@ -248,7 +248,7 @@ Responses(ph, cn, dt, q) ==
 \* Advance is not evaluated a second time here)
 UpNext(s)      == UpEnv(s) /\ \E R \in Responses(phys, conn \cup {s}, 0, 0) : UpDo(s, R)
 DownNext(s)    == DownEnv(s) /\ \E R \in Responses(phys, conn \ {s}, 0, 0) : DownDo(s, R)
-AdvanceNext(d) == AdvEnv(d) /\ \E R \in Responses(phys, conn, d, Min(quiet + d, Cap)) : AdvDo(d, R)
+AdvanceNext(d) == AdvEnv(d) /\ \E R \in Responses(phys, conn, d, Lesser(quiet + d, Cap)) : AdvDo(d, R)
 CutNext        == \E l \in phys : Cut(l)
 RestoreNext    == \E l \in net.wires \ phys : Restore(l)
 FloodNext      == \E s \in Switches : \E p \in HostPorts(s) : Flood(s, p)
@@ -276,7 +276,7 @@ RefR(ph, cn, dt, q) ==
   IN mx
 NextRef == \/ \E s \in Switches \ conn : SwitchUp(s, RefR(phys, conn \cup {s}, 0, 0))
            \/ \E s \in conn : SwitchDown(s, RefR(phys, conn \ {s}, 0, 0))
-           \/ \E d \in Durations : Advance(d, RefR(phys, conn, d, Min(quiet + d, Cap)))
+           \/ \E d \in Durations : Advance(d, RefR(phys, conn, d, Lesser(quiet + d, Cap)))
            \/ CutNext
            \/ RestoreNext
            \/ FloodNext
@@ -319,7 +319,7 @@ ExactlyOnce ==
 Responsive ==
   /\ \A s \in Switches \ conn : \E A \in AdjChoices(phys, conn \cup {s}, 0, 0) : NFChoices(A, conn \cup {s}) # {}
   /\ \A s \in conn : \E A \in AdjChoices(phys, conn \ {s}, 0, 0) : NFChoices(A, conn \ {s}) # {}
-  /\ \A d \in Durations : \E A \in AdjChoices(phys, conn, d, Min(quiet + d, Cap)) : NFChoices(A, conn) # {}
+  /\ \A d \in Durations : \E A \in AdjChoices(phys, conn, d, Lesser(quiet + d, Cap)) : NFChoices(A, conn) # {}
 
 \* announcements: per link they alternate, starting with "added", and the
 \* adjacency is what has been announced
